@@ -57,7 +57,7 @@ func genSLIter(seed uint64, tier string) *Plan {
 	nit := r.Range(1, 2)
 	for i := 0; i < nit; i++ {
 		tp := TaskPlan{Name: fmt.Sprintf("i%d", i), Phase: 0}
-		n := r.Range(1, 3)
+		n := r.Range(1, 4)
 		for j := 0; j < n; j++ {
 			// one scan: start (0 = SeekFirst, else Seek(x)), steps (0 = to the end), refresh interval, explicit refresh period, pause period
 			start := 0
@@ -65,10 +65,12 @@ func genSLIter(seed uint64, tier string) *Plan {
 				start = r.Range(1, 10*nstable+9)
 			}
 			steps := 0
-			if r.Bool(0.3) {
+			if r.Bool(0.4) {
 				steps = r.Range(1, 6)
 			}
-			tp.Ops = append(tp.Ops, Op{K: "scan", A: []int{start, steps, []int{0, 0, 1, 2, 3}[r.Intn(5)], []int{0, 0, 1, 2, 3}[r.Intn(5)], []int{0, 0, 0, 2, 3}[r.Intn(5)]}})
+			// a scan that stops early may leave the iterator right after an explicit Refresh
+			// (the next scan of a re-used iterator re-positions it from that state)
+			tp.Ops = append(tp.Ops, Op{K: "scan", A: []int{start, steps, []int{0, 0, 1, 2, 3}[r.Intn(5)], []int{0, 0, 1, 2, 3}[r.Intn(5)], []int{0, 0, 0, 2, 3}[r.Intn(5)], r.Intn(2)}})
 		}
 		p.Tasks = append(p.Tasks, tp)
 	}
@@ -258,6 +260,10 @@ func runSLIter(env *Env) {
 						break
 					}
 					if steps > 0 && n >= steps {
+						if op.Arg(5) == 1 {
+							s.Yield(SiteHarnessOp)
+							it.Refresh()
+						}
 						break
 					}
 					s.Yield(SiteHarnessOp)
